@@ -17,7 +17,7 @@ CLAIMED = {
    ref="DESIGN.md section 3 C19"),
  'C01': dict(
    technique="proptest-generated specification-derived documents x rendering styles; constructed-truth oracle (extract(load(render(d))) == d) and round-trip oracle (load-serialize-load identity, byte-identical re-serialization), strict and lenient, all 21 versions; the round-trip oracle also on every accepted mutated document (proptest) and inside a coverage-guided libFuzzer target (thorough tier)",
-   text="Documents are generated from the specification tables (every element type reachable in every version in the thorough sweep; every character-data kind, mixed content, attributes, comments), rendered in thousands of textual forms (quote styles, entity / decimal / hex references, padding, CRLF, BOM, PIs), and the loaded model is compared with the abstract document the text was rendered from, then serialized and re-loaded.",
+   text="Documents are generated from the specification tables (every element type reachable in every version in the thorough sweep; every character-data kind, mixed content, attributes, comments), rendered in thousands of textual forms (quote styles, entity / decimal / hex references, padding, CRLF, BOM, PIs), and the loaded model is compared with the abstract document the text was rendered from, then serialized and re-loaded. Each document is also loaded into a model that already holds a small file of another schema version: the text written for the document's file must carry the document's own schema location and load to the document (the shared root's and AR-PACKAGES' attributes and comment, which exist once per model, left out).",
    note="Domain restrictions (documented in DESIGN.md section 7): values contain no \\r and are not whitespace-only, '>' is escaped inside tags, no whitespace before '>' of an end tag, pattern values use only mandatory escapes. A strict rejection of a generated document is reported as 'generator-rejected' (harness bug or disagreement), never silently dropped.",
    ref="DESIGN.md section 3 C01"),
  'C02': dict(
@@ -47,7 +47,7 @@ CLAIMED = {
    ref="DESIGN.md section 3 C04"),
  'C05': dict(
    technique="stateful property-based testing: reference-biased proptest histories; oracle = referrer multimap derived from the tree vs all keys of the reverse map (hook) and get_references_to(); exact invalid-reference report and resolve/report biconditional",
-   text="After every step every key of the reverse reference map (obtained through the verif hook, so stale keys nobody asks for are seen) is compared as a multiset with the reference elements in the tree carrying that text; check_references() must equal the set computed from the tree and the DEST tables.",
+   text="After every step every key of the reverse reference map (obtained through the verif hook, so stale keys nobody asks for are seen) is compared as a multiset with the reference elements in the tree carrying that text; check_references() must equal the set computed from the tree and the DEST tables. A second generated sub-property loads documents whose reference texts are padded with white space / line breaks or written with a character reference, and runs the same comparison after the load and after a rename of a target (the parser's own registration path).",
    note="An entry counts as live when its weak pointer upgrades; an upgradable entry for an element that is not in the model is a violation.",
    ref="DESIGN.md section 3 C05"),
  'C10': dict(
@@ -57,7 +57,7 @@ CLAIMED = {
    ref="DESIGN.md section 3 C10"),
  'C11': dict(
    technique="stateful property-based testing with fault-directed arguments: every call that returns Err is framed by a full snapshot (tree, values, attributes, comments, local file sets, path index, lookups incl. ghost paths, reverse reference map, invalid-reference report, file list)",
-   text="About 100 (operation, error variant) classes are reached per run, including loads failing in the lexer, late in the parser, in the merge, in the overlap check and on a duplicate file name; snapshot before must equal snapshot after.",
+   text="About 100 (operation, error variant) classes are reached per run, including loads failing in the lexer, late in the parser, in the merge, in the overlap check and on a duplicate file name; snapshot before must equal snapshot after. A second generated sub-property adds the fixture's AR-PACKAGES to a new file of an older version and frames repositions of elements inside their own parent and create_sub_element_at calls with the same snapshot comparison (late failures caused by a lowered version).",
    note="write() is excluded (documented partial effect); remove_attribute() returning false is not an error value.",
    ref="DESIGN.md section 3 C11"),
  'C12': dict(
@@ -67,12 +67,12 @@ CLAIMED = {
    ref="DESIGN.md section 3 C12"),
  'C06': dict(
    technique="property-based testing of single rename / move / move-at operations on generated reference graphs; oracle computed from the pre-state by own path resolution (same target object afterwards; all other references keep their text)",
-   text="Reference graphs contain references to the operated element, to nested elements, to name-prefix siblings, dangling references and dangling references equal to the future path; same-model and cross-model moves, moves into parents where the name exists (suffixing).",
+   text="Reference graphs contain references to the operated element, to nested elements, to name-prefix siblings, dangling references and dangling references equal to the future path; same-model and cross-model moves, moves into parents where the name exists (suffixing). One case in four starts from a leniently loaded 4.0.1 document whose CAN-TP-ADDRESS / CAN-TP-CHANNEL elements carry a SHORT-NAME although their types are named only in later versions.",
    note="Dangling references at or below the old path are a stated don't-care; operations that fail are C11's business.",
    ref="DESIGN.md section 3 C06"),
  'C07': dict(
    technique="specification sweep (element type x version) with brute-force position probes against an own grammar matcher, plus proptest edit histories with a round-trip (serialize, lenient load) and structure / value-space oracle",
-   text="For every sampled (type, version) the reported insertion range, list_valid_sub_elements() and the outcome of create(_named)_sub_element(_at) at every position are compared with the exact set of order-preserving positions; histories check after every successful call that children satisfy the grammar, element types are the prescribed ones, attributes and values are in their value spaces and that the written file reloads without complaint other than RequiredAttributeMissing.",
+   text="For every sampled (type, version) the reported insertion range, list_valid_sub_elements() and the outcome of create(_named)_sub_element(_at) at every position are compared with the exact set of order-preserving positions; histories check after every successful call that children satisfy the grammar, element types are the prescribed ones, attributes and values are in their value spaces and that the written file reloads without complaint other than RequiredAttributeMissing. Names that conform to the identifier pattern but exceed 128 characters are in the pool of names the histories use.",
    note="The grammar is reconstructed from find_sub_element index vectors and container modes (public API) and matched by own code; adjacent text items of mixed content are compared coalesced (XML cannot tell them apart). Histories start from 16 fixtures: loaded / empty single-file models of five versions, pairs of models of different versions (cross-version copies and moves), and one model with files of two versions (there every file's written text must load without complaint in that file's version).",
    ref="DESIGN.md section 3 C07"),
  'C13': dict(
@@ -82,7 +82,7 @@ CLAIMED = {
    ref="DESIGN.md section 3 C13"),
  'C14': dict(
    technique="metamorphic property-based testing: models built twice (second time with every reorderable sibling list permuted), then sorted; content-preservation, idempotence and permutation-invariance oracles",
-   text="Names mix letters and digits (a2/a10/a1b/a02), INDEX and DEFINITION-REF keyed ECUC values, equal keys, mixed kinds in bags, ordered containers, lists of up to 60 siblings (std sort's merge path); which containers are ordered is read from the specification.",
+   text="Names mix letters and digits (a2/a10/a1b/a02), INDEX and DEFINITION-REF keyed ECUC values, equal keys, mixed kinds in bags, ordered containers, lists of up to 60 siblings (std sort's merge path); which containers are ordered is read from the specification. PRM-CHAR elements (nested sequence groups MIN TYP MAX / ABS TOL before PRM-UNIT) are part of the generated models.",
    note="Siblings that differ only in comments are not generated (the statement lets them keep their relative order); siblings that differ only in an attribute value are (L-4/L, SD/GID), as are names whose numeric suffix exceeds u64.",
    ref="DESIGN.md section 3 C14"),
  'C17': dict(
@@ -92,7 +92,7 @@ CLAIMED = {
    ref="DESIGN.md section 3 C17"),
  'C09': dict(
    technique="property-based testing with constructed truth: a generated master document is split over 2-4 files at splittable points (file sets per element), optionally with differently ordered named siblings, and loaded in all orders; oracle = master tree with multiset children and assigned file sets, per-file content, order independence",
-   text="Every load order (all k! for k <= 3) must give a model that equals the master (every element once, the assigned file set on every element), every file written from the merged model must equal the file loaded on its own, and all orders must agree; a rejected merge of consistent views is a violation.",
+   text="Every load order (all k! for k <= 3) must give a model that equals the master (every element once, the assigned file set on every element), every file written from the merged model must equal the file loaded on its own, and all orders must agree; a rejected merge of consistent views is a violation. In the conflict cases the files also carry packages of their own where the master has packages to spare, and a rejected load must leave the number of elements of the model unchanged.",
    note="Anonymous (non-identifiable) siblings of one kind are kept together and never re-ordered unless a DEFINITION-REF that is unique among them identifies them (BSW values: those are distributed individually); siblings are re-ordered per file only below splittable parents. Files of one case may have different versions (a split is made only where every involved version allows it). A conflict variant diverges two complete views below a non-splittable parent: same-kind named children must be rejected in both orders; different-kind divergences are a recorded finding (KF-C09-4).",
    ref="DESIGN.md section 3 C09"),
  'C15': dict(
